@@ -6,6 +6,8 @@ import (
 	"io"
 	"net"
 	"sync"
+	"sync/atomic"
+	"time"
 
 	"github.com/streamingfast/bstream"
 	"github.com/streamingfast/bstream/stream"
@@ -67,6 +69,22 @@ type RemoteTier2 struct {
 	Attempts  map[string]int // "stage/segment" -> attempts seen by the client interceptor
 	Triggered []Fault
 	Calls     int
+	// readiness as last signalled by the service through its ready callback (overload handling)
+	ready           atomic.Int32
+	NotReadySignals atomic.Int64
+}
+
+// Quiesce waits until every server-side handler has returned (zombie jobs included) and reports whether the service
+// then signals "ready". ok=false means handlers were still running after the generous bound (inconclusive).
+func (rt *RemoteTier2) Quiesce() (ready bool, ok bool) {
+	done := make(chan struct{})
+	go func() { rt.srv.GracefulStop(); close(done) }()
+	select {
+	case <-done:
+		return rt.ready.Load() == 1, true
+	case <-time.After(60 * time.Second):
+		return false, false
+	}
 }
 
 // NewRemoteTier2 starts the server. maxConcurrent > 0 enables the real overload path.
@@ -81,7 +99,15 @@ func (c *Cluster) NewRemoteTier2(maxConcurrent uint64) (*RemoteTier2, error) {
 	if err != nil {
 		return nil, err
 	}
-	t2.VerifSetReadyFunc(func(bool) {})
+	rt.ready.Store(1)
+	t2.VerifSetReadyFunc(func(r bool) {
+		if r {
+			rt.ready.Store(1)
+		} else {
+			rt.ready.Store(0)
+			rt.NotReadySignals.Add(1)
+		}
+	})
 	rs := &runState{cl: c, res: &Result{}}
 	t2.VerifSetStreamFactory(func(ctx context.Context, h bstream.Handler, startBlockNum int64, stopBlockNum uint64, cursor string, finalBlocksOnly bool, cursorIsTarget bool, logger *zap.Logger, extraOpts ...stream.Option) (service.Streamable, error) {
 		return rs.tier2StreamFactory(ctx, h, startBlockNum, stopBlockNum, cursor, finalBlocksOnly, cursorIsTarget, logger, extraOpts...)
